@@ -1039,6 +1039,10 @@ func (hv *Hash) EachWithIndex(consumer px.IndexedConsumer) {
 }
 
 func (hv *Hash) Equals(o interface{}, g px.Guard) bool {
+	if mv, ok := o.(*MutableHashValue); ok {
+		// a mutable hash is the Hash that it embeds
+		o = &mv.Hash
+	}
 	if ov, ok := o.(*Hash); ok {
 		if top := len(hv.entries); top == len(ov.entries) {
 			ovIndex := ov.valueIndex()
